@@ -81,6 +81,12 @@ def build_tree(w, sc):
         inside_dir(root, 'c')
         w.put(base + '/ok.lua', b'inside_g_ok=1\n')
         w.put(base + '/sub/ok2.lua', b'inside_g_ok2=1\n')
+    elif layout == 'tilde-dir':
+        # a directory whose name is literally "~" (cwd is its parent, the
+        # cart is named "~/cart.p8" on the command line)
+        base = 'home/~'
+        root = base
+        inside_dir(base, 't')
     elif layout == 'carts-old':
         # a folder whose name merely extends the carts folder's name
         base = CARTS_DIRS['carts-linux'] + '-old'
@@ -194,12 +200,14 @@ def _perturb(rng, path):
 def gen_c12(rng, tier, index):
     mode = rng.choice(['include', 'include', 'require', 'require'])
     layout = rng.choice(['proj', 'proj', 'carts-linux', 'carts-mac',
-                         'carts-win', 'carts-old']) if mode == 'include' \
-        else 'proj'
+                         'carts-win', 'carts-old', 'tilde-dir']) \
+        if mode == 'include' else 'proj'
     sc = {'engine': NAME, 'mode': mode, 'layout': layout,
           'cwd': rng.choice(['root', 'base', 'parent']),
           'argstyle': rng.choice(['abs', 'rel']),
           'home': rng.choice(['home', 'home', 'unset', 'elsewhere'])}
+    if layout == 'tilde-dir' and rng.random() < 0.7:
+        sc.update(cwd='parent', argstyle='rel', home='home')
     # choose a target to aim at: a canary (mostly) or an inside file
     sc['aim'] = rng.random()
     sc['aim_index'] = rng.randrange(10**6)
@@ -211,7 +219,7 @@ def gen_c12(rng, tier, index):
                                  'sq', 'long'])
     # an unrelated cart (in a cousin directory, same relative name) is loaded
     # first in the same process, from its own directory
-    sc['warmup'] = rng.random() < 0.2
+    sc['warmup'] = rng.choice([False] * 7 + [True, True, 'failing'])
     sc['perturb_seed'] = rng.randrange(10**9)
     if mode == 'include':
         sc['route'] = rng.choice(['from_file', 'from_file', 'from_file',
@@ -237,6 +245,8 @@ def gen_c12(rng, tier, index):
         sc['opts'] = rng.choice(['', '', ', {use_game_loop=true}'])
     # directory separators written as backslashes in part of the runs
     sc['backslash'] = rng.random() < 0.12
+    sc['highbyte'] = rng.choice([0] * 9 + [128, 255, 200]) \
+        if mode == 'require' else 0
     sc['S'] = None      # derived at execution time from the tree (see _derive)
     if rng.random() < 0.35:
         k = rng.choice([1, 1, 2, 2, 3, 4, 5, 6])
@@ -418,6 +428,9 @@ def execute(sc):
         else:
             cf = sc.get('callform', 'paren')
             esc = S_real.replace('\\', '\\\\')
+            if sc.get('highbyte'):
+                # a byte >= 0x80 (decimal escape) in front of the name
+                esc = '\\%d' % sc['highbyte'] + esc
             if cf == 'paren' or sc.get('opts'):
                 req = 'require("%s"%s)' % (esc.replace('"', '\\"'),
                                            sc.get('opts', ''))
@@ -450,7 +463,16 @@ def execute(sc):
         if sc.get('warmup'):
             cousin = os.path.dirname(info['root']) + '/cousin'
             try:
-                if sc['mode'] == 'include':
+                if sc['mode'] == 'include' and sc.get('warmup') == 'failing':
+                    # a cart one level up fails to load half-way through
+                    par = os.path.dirname(info['base'])
+                    w.put(par + '/bad.p8', _p8_with_code(
+                        b'ok_line=1\n#include init.lua\nx=1\n`\ny=2\n'))
+                    try:
+                        pfile.from_file(w.p(par + '/bad.p8'))
+                    except BaseException:
+                        core.bump(res['probes'], 'warmup-load-failed-midway')
+                elif sc['mode'] == 'include':
                     w.put(cousin + '/cart.p8', _p8_with_code(
                         b'warm_marker=1\n#include init.lua\n'))
                     os.chdir(w.p(cousin))
@@ -637,6 +659,16 @@ def gen_c20(rng, tier, index):
         d = rng.choice(['', '', 'sub/', 'sub/deep/'])
         name = '%sinc%d.%s' % (d, t, {'lua': 'lua', 'p8': 'p8',
                                         'png': 'p8.png'}[kind])
+        if rng.random() < 0.2:
+            # names in which an extension-like part occurs before the real
+            # extension, or in a directory component
+            name = {'lua': rng.choice(['%sx%d.p8.lua', '%sa%d.p8.png.lua',
+                                       '%smods%d.lua.d/inc.lua',
+                                       '%sv1.2/inc%d.lua']),
+                    'p8': rng.choice(['%stools%d.lua.p8', '%slib%d.p8.p8',
+                                      '%sc%d.lua.d/cart.p8']),
+                    'png': rng.choice(['%st%d.lua.p8.png',
+                                       '%su%d.p8.d/c.p8.png'])}[kind] % (d, t)
         tg = {'kind': kind, 'rel': name}
         if kind == 'lua':
             tg['lines'] = mk_lines('t%d' % t, rng.choice([0, 1, 2, 3]))
@@ -676,7 +708,8 @@ def gen_c20(rng, tier, index):
           'lines': lines,
           'cwd': rng.choice(['root', 'base', 'parent']),
           'argstyle': rng.choice(['abs', 'rel']),
-          'route': rng.choice(['from_file', 'from_file', 'listlua']),
+          'route': rng.choice(['from_file', 'from_file', 'listlua',
+                               'build-out']),
           'enoent': None}
     incs = [i for i, ln in enumerate(lines) if ln['t'] == 'inc']
     if incs and rng.random() < 0.2:
@@ -803,6 +836,10 @@ def execute_splice(sc):
     return res
 
 
+class _BuildDamagedCart(Exception):
+    pass
+
+
 def _prelude_failed_load(w, sc, res):
     """A load that fails part-way (an included cart is corrupt) happens first
     in the same process; the loads under test follow on repaired files."""
@@ -924,6 +961,18 @@ def _splice_round(w, sc, res, rno):
             if sc['route'] == 'from_file':
                 g = pfile.from_file(arg)
                 got = b''.join(g.lua.to_lines())
+            elif sc['route'] == 'build-out':
+                # the cart is the existing OUT of a build that only replaces
+                # another section: loading it expands its includes, and a
+                # missing target must fail the build and leave it untouched
+                w.put('work/gfxsrc.p8', refcodec.encode_p8(
+                    refcodec.make_cart(code=b'gfxsrc=1\n')))
+                cart_before = w.snap(cart_rel)
+                rc = tool.main(['build', arg, '--gfx', w.p('work/gfxsrc.p8')])
+                if rc in (0, None):
+                    got = refcodec.decode_p8(w.snap(cart_rel)[2])['code']
+                elif w.snap(cart_rel) != cart_before:
+                    raise _BuildDamagedCart()
             else:
                 rc = tool.main(['listlua', arg])
                 got = w.out.getvalue().encode('latin-1', 'replace')
@@ -932,6 +981,13 @@ def _splice_round(w, sc, res, rno):
         opens = [o[0][len('$ROOT/'):] for o in w.stop_io_log() if o[1] == 'r']
         failed = exc is not None or rc not in (0, None)
         core.bump(res['ops'], 'load:' + sc['route'])
+        if isinstance(exc, _BuildDamagedCart):
+            core.violation(
+                res, 'C20', 'C20:failed-load-changed-cart',
+                'C20|build over a cart whose include fails changed the cart',
+                'the build failed while loading the cart (include lines %r) '
+                'but the cart file was changed' % (
+                    [t for t in text_lines if '#include' in t],))
         n_inc = len(expect_open)
         kinds = sorted({sc['targets'][ln['target']]['kind'] +
                         ('' if ln['tab'] is None else ':tab')
@@ -965,7 +1021,7 @@ def _splice_round(w, sc, res, rno):
                     'rc=%r stderr=%s' % (rc, w.unsubst(w.err.getvalue()[-300:]))))
         else:
             # (1) I/O history
-            want_opens = [cart_rel] + expect_open
+            want_opens = [cart_rel] + expect_open + ['work/gfxsrc.p8']
 
             def rp(rel):
                 # names are compared after resolving symbolic links (the
@@ -1098,7 +1154,7 @@ def shrink(sc):
                  ('route', 'from_file' if sc['mode'] == 'include'
                   else 'build'), ('tab', None), ('nest', False),
                  ('opts', ''), ('warmup', False), ('callform', 'paren'),
-                 ('backslash', False)):
+                 ('backslash', False), ('highbyte', 0)):
         if k in sc and sc[k] != v:
             yield dict(sc, **{k: v})
     lp = sc.get('lua_path')
